@@ -398,6 +398,170 @@ def desugar_extend(raws, facts):
     return n
 
 
+COMBINATORS = {
+    # name -> (carrier, which variant reaches the closure, how the closure's result is wrapped)
+    "Option::and_then": ("option", "good", "raw"), "Option::map": ("option", "good", "good"),
+    "Result::and_then": ("result", "good", "raw"), "Result::map": ("result", "good", "good"),
+    "Result::map_err": ("result", "bad", "bad"), "Option::ok_or_else": ("option", "bad0", "to_err"),
+    "Option::unwrap_or_else": ("option", "bad0", "unwrap"), "Option::or_else": ("option", "bad0", "raw_opt"),
+}
+
+
+def desugar_combinators(raws, facts):
+    """`opt.and_then(|x| ..)`, `.map(..)`, `res.map_err(..)`, `opt.ok_or_else(..)`, `opt.unwrap_or_else(..)` with a closure built
+    in the same function are rewritten (in the view) into the `match` they stand for, with the closure body inlined: what the
+    closure does (a removal, a call of the runner, a trigger) then sits in the function's own CFG, on the arm that runs it.
+    Semantics preserved: these std combinators call the closure exactly once on that variant and never otherwise."""
+    n = 0
+    consumed = []
+    for path, raw in list(raws.items()):
+        try:
+            body = mir.Body(raw, None)
+        except Exception:
+            continue
+        nblocks = len(raw["blocks"])
+        for b in range(nblocks):
+            blk = raw["blocks"][b]
+            t = blk["term"]
+            if t["k"] != "call" or blk["cleanup"] or t.get("t") is None or len(t["args"]) != 2:
+                continue
+            fr = op_fn(t["func"])
+            if fr is None:
+                continue
+            nm = mir.tail2(fr["path"])
+            if nm not in COMBINATORS:
+                continue
+            carrier, which, wrap = COMBINATORS[nm]
+            os_ = mir.origins(body, t["args"][1])
+            clo_raw = None
+            if len(os_) == 1:
+                o = next(iter(os_))
+                if o[0] == "agg" and len(o) == 3:
+                    ag = raw["blocks"][o[1]]["stmts"][o[2]]["rv"].get("agg")
+                    if ag and ag.get("kind") == "closure" and ag.get("closure") in raws:
+                        clo_raw = raws[ag["closure"]]
+            cp = mir.op_place(t["args"][1])
+            vp = mir.op_place(t["args"][0])
+            if clo_raw is None or cp is None or vp is None or vp["p"] or t["dest"]["p"]:
+                continue
+            want_args = 1 if which == "bad0" else 2
+            if clo_raw["arg_count"] != want_args:
+                continue
+            # only closures that *do* something the rules look for (a call into the crate, or a container mutation); pure
+            # projections (`|v| v.len()`) stay as they are - the rules read those combinator idioms directly
+            import tables as _T
+            crate_fns = {r_["path"] for r_ in raws.values()}
+            interesting = False
+            for cb_ in clo_raw["blocks"]:
+                ct_ = cb_["term"]
+                if ct_["k"] == "call":
+                    cfr_ = op_fn(ct_["func"])
+                    if cfr_ is None:
+                        continue
+                    tgt_ = raws.get(cfr_.get("resolved") or "") or raws.get(cfr_["path"])
+                    # a crate function that can change something (takes a `&mut`; read-only getters are pure)
+                    mutating = tgt_ is not None and any(tgt_["locals"][i_]["ty"].startswith("&mut") for i_ in range(1, tgt_["arg_count"] + 1))
+                    if mutating or _T.classify(cfr_["path"]) in ("order-preserving-remove", "order-destroying", "append-ordered"):
+                        interesting = True
+            if not interesting:
+                continue
+            L = raw["locals"]
+            vty = L[vp["l"]]["ty"]
+            dty = L[t["dest"]["l"]]["ty"]
+            if not vty.startswith("core::option::Option<" if carrier == "option" else "core::result::Result<"):
+                continue
+
+            def new_local(ty):
+                L.append({"ty": ty, "name": None})
+                return len(L) - 1
+            line = t.get("line")
+            good_v, bad_v = (1, 0) if carrier == "option" else (0, 1)
+            good_n, bad_n = ("Some", "None") if carrier == "option" else ("Ok", "Err")
+            l_d = new_local("isize")
+            l_x = new_local("desugared::Payload")
+            l_r = new_local(clo_raw["locals"][0]["ty"])
+            l_self = new_local(clo_raw["locals"][1]["ty"])
+            B = raw["blocks"]
+            base = len(B)
+            SW, CALL, WRAP, OTHER, UNR = base, base + 1, base + 2, base + 3, base + 4
+            exit_t = t["t"]
+            dest = t["dest"]
+            run_v, run_n = (good_v, good_n) if which == "good" else (bad_v, bad_n)
+            oth_v, oth_n = (bad_v, bad_n) if which == "good" else (good_v, good_n)
+            adt = "core::option::Option" if carrier == "option" else "core::result::Result"
+            B.append({"cleanup": False, "stmts": [{"k": "assign", "place": {"l": l_d, "p": []}, "rv": {"discr": {"l": vp["l"], "p": []}}, "line": line, "exp": None, "inl": True}],
+                      "term": {"k": "switch", "op": {"move": {"l": l_d, "p": []}}, "targets": [[run_v, CALL], [oth_v, OTHER]], "otherwise": UNR, "line": line, "exp": None}})
+            st_call = []
+            sty = clo_raw["locals"][1]["ty"]
+            if sty.startswith("&mut"):
+                st_call.append({"k": "assign", "place": {"l": l_self, "p": []}, "rv": {"ref": {"l": cp["l"], "p": list(cp["p"])}, "mut": True}, "line": line, "exp": None, "inl": True})
+            elif sty.startswith("&"):
+                st_call.append({"k": "assign", "place": {"l": l_self, "p": []}, "rv": {"ref": {"l": cp["l"], "p": list(cp["p"])}, "mut": False}, "line": line, "exp": None, "inl": True})
+            else:
+                st_call.append({"k": "assign", "place": {"l": l_self, "p": []}, "rv": {"use": {"move": {"l": cp["l"], "p": list(cp["p"])}}}, "line": line, "exp": None, "inl": True})
+            cargs = [{"move": {"l": l_self, "p": []}}]
+            if want_args == 2:
+                payload = {"move": {"l": vp["l"], "p": [{"downcast": run_v, "name": run_n}, {"f": 0, "ty": "desugared::Payload", "name": "0", "variant": run_n, "adt": adt}]}}
+                st_call.append({"k": "assign", "place": {"l": l_x, "p": []}, "rv": {"use": payload}, "line": line, "exp": None, "inl": True})
+                cargs.append({"move": {"l": l_x, "p": []}})
+            B.append({"cleanup": False, "stmts": st_call,
+                      "term": {"k": "call", "func": {"const": {"fn": {"path": clo_raw["path"], "resolved": clo_raw["path"], "args": []}, "ty": "fn"}}, "args": cargs,
+                               "dest": {"l": l_r, "p": []}, "t": WRAP, "unwind": None, "line": line, "exp": None}})
+            # wrap the closure's result
+            if wrap in ("raw", "raw_opt", "unwrap"):
+                wst = [{"k": "assign", "place": copy.deepcopy(dest), "rv": {"use": {"move": {"l": l_r, "p": []}}}, "line": line, "exp": None, "inl": True}]
+            else:
+                dadt = "core::option::Option" if dty.startswith("core::option::Option<") else "core::result::Result"
+                if wrap == "good":
+                    vi, vn = ((1, "Some") if dadt.endswith("Option") else (0, "Ok"))
+                else:       # "bad" / "to_err"
+                    vi, vn = (1, "Err")
+                wst = [{"k": "assign", "place": copy.deepcopy(dest), "rv": {"agg": {"kind": "adt", "adt": dadt, "variant": vi, "vname": vn, "fields": ["0"],
+                                                                                 "ops": [{"move": {"l": l_r, "p": []}}]}}, "line": line, "exp": None, "inl": True}]
+            B.append({"cleanup": False, "stmts": wst, "term": {"k": "goto", "t": exit_t, "line": line, "exp": None}})
+            # the variant the closure does not see
+            if wrap == "unwrap":        # Some(x) => x
+                ost = [{"k": "assign", "place": copy.deepcopy(dest), "rv": {"use": {"move": {"l": vp["l"], "p": [{"downcast": 1, "name": "Some"}, {"f": 0, "ty": dty, "name": "0", "variant": "Some", "adt": adt}]}}},
+                        "line": line, "exp": None, "inl": True}]
+            elif wrap == "raw_opt":     # Some(x) => Some(x)
+                ost = [{"k": "assign", "place": copy.deepcopy(dest), "rv": {"use": {"move": {"l": vp["l"], "p": []}}}, "line": line, "exp": None, "inl": True}]
+            elif wrap == "to_err":      # Some(x) => Ok(x)
+                l_p = new_local("desugared::Payload")
+                ost = [{"k": "assign", "place": {"l": l_p, "p": []}, "rv": {"use": {"move": {"l": vp["l"], "p": [{"downcast": 1, "name": "Some"}, {"f": 0, "ty": "desugared::Payload", "name": "0", "variant": "Some", "adt": adt}]}}},
+                        "line": line, "exp": None, "inl": True},
+                       {"k": "assign", "place": copy.deepcopy(dest), "rv": {"agg": {"kind": "adt", "adt": "core::result::Result", "variant": 0, "vname": "Ok", "fields": ["0"], "ops": [{"move": {"l": l_p, "p": []}}]}},
+                        "line": line, "exp": None, "inl": True}]
+            elif carrier == "option":   # None => None
+                ost = [{"k": "assign", "place": copy.deepcopy(dest), "rv": {"agg": {"kind": "adt", "adt": "core::option::Option", "variant": 0, "vname": "None", "fields": [], "ops": []}},
+                        "line": line, "exp": None, "inl": True}]
+            else:                       # result: the other variant is carried over with its payload
+                l_p = new_local("desugared::Payload")
+                ost = [{"k": "assign", "place": {"l": l_p, "p": []}, "rv": {"use": {"move": {"l": vp["l"], "p": [{"downcast": oth_v, "name": oth_n}, {"f": 0, "ty": "desugared::Payload", "name": "0", "variant": oth_n, "adt": adt}]}}},
+                        "line": line, "exp": None, "inl": True},
+                       {"k": "assign", "place": copy.deepcopy(dest), "rv": {"agg": {"kind": "adt", "adt": "core::result::Result", "variant": oth_v, "vname": oth_n, "fields": ["0"], "ops": [{"move": {"l": l_p, "p": []}}]}},
+                        "line": line, "exp": None, "inl": True}]
+            B.append({"cleanup": False, "stmts": ost, "term": {"k": "goto", "t": exit_t, "line": line, "exp": None}})
+            B.append({"cleanup": False, "stmts": [], "term": {"k": "unreachable", "line": line, "exp": None}})
+            blk["term"] = {"k": "goto", "t": SW, "line": line, "exp": None, "desugared": nm}
+            inline_call(raw, CALL, copy.deepcopy(clo_raw))
+            consumed.append(clo_raw["path"])
+            n += 1
+    # a closure whose only use was the desugared combinator now lives inside its parent: its stand-alone body would be read
+    # out of context (its captured values look like parameters)
+    for cpath in consumed:
+        still_used = False
+        for raw in raws.values():
+            for blk in raw["blocks"]:
+                t = blk["term"]
+                if t["k"] == "call":
+                    fr = op_fn(t["func"])
+                    if fr is not None and fr.get("path") == cpath:
+                        still_used = True
+        if not still_used and cpath in raws and not any(r.get("parent") == cpath or r.get("root") == cpath for r in raws.values()):
+            del raws[cpath]
+    return n
+
+
 def devirtualise_closure_calls(raws, facts):
     """After a helper taking `impl FnOnce(..)` was inlined, the closure it was given is a local aggregate of the caller and
     `FnOnce::call_once(move closure, (args,))` is a call of a known closure body: rewrite the callee to that body (same
@@ -922,6 +1086,10 @@ def inlined_facts(facts, vocab=None):
                 raws[path] = r2
                 info["arm_split"].append(mir.strip_generics(path))
     info["desugared_extend"] = desugar_extend(raws, facts)
+    try:
+        info["desugared_extend"] += desugar_combinators(raws, facts)
+    except Exception as e:       # the view stays without this normalisation
+        info["desugar_combinators_error"] = repr(e)
     if not helpers and not info["arm_split"] and not info["desugared_extend"]:
         sigs = load_sigs()
         info["unbundled"] = unbundle_params(raws, facts, sigs) if sigs else []
@@ -1240,7 +1408,25 @@ def thread_variants(raw):
     new_blocks = []
     for nid, (b, facts) in enumerate(order):
         blk = blocks[b]
-        nb = {"cleanup": blk["cleanup"], "stmts": blk["stmts"], "orig": b}
+        # constant propagation inside the copy: `x = move y` where y is known to hold a constant on this path becomes
+        # `x = const` (a helper's `return false` / `true` merged into one return place reads as a constant again)
+        stmts2 = blk["stmts"]
+        if facts and any(v[0] == "c" for v in facts.values()):
+            stmts2 = []
+            fcur = dict(facts)
+            for st in blk["stmts"]:
+                st2 = st
+                if st["k"] == "assign" and "use" in st.get("rv", {}):
+                    p_ = mir.op_place(st["rv"]["use"])
+                    if p_ is not None and not p_["p"] and fcur.get(p_["l"], ("", None))[0] == "c" \
+                            and raw["locals"][p_["l"]]["ty"] in ("bool", "usize", "isize", "u8", "u32", "i32", "u64"):
+                        st2 = dict(st)
+                        st2["rv"] = {"use": {"const": {"ty": raw["locals"][p_["l"]]["ty"], "val": fcur[p_["l"]][1],
+                                                       "repr": str(fcur[p_["l"]][1])}}}
+                        st2["propagated"] = True
+                stmts2.append(st2)
+                fcur = step_stmt(st, fcur)
+        nb = {"cleanup": blk["cleanup"], "stmts": stmts2, "orig": b}
         if "file" in blk:
             nb["file"] = blk["file"]
         t = dict(blk["term"])
